@@ -23,8 +23,8 @@ TInit ==
 Same == UNCHANGED vars
 ToSet(seq) == {seq[i] : i \in 1..Len(seq)}
 
-TStart    == Line.e = "start"    /\ Start(Line.r, Line.body)
-TStartOn  == Line.e = "starton"  /\ StartOn(Line.r, Line.c, Line.body)
+TStart    == Line.e = "start"    /\ Start(Line.r, Line.body, Line.len)
+TStartOn  == Line.e = "starton"  /\ StartOn(Line.r, Line.c, Line.body, Line.len)
 TReserve  == Line.e = "reserve"  /\ Reserve(Line.c, Line.ok)
 TCancel   == Line.e = "cancel"   /\ Cancel(Line.r)
 TCloseB   == Line.e = "closebody" /\ CloseBody(Line.r)
@@ -38,7 +38,7 @@ TGoAway   == Line.e = "p_goaway" /\ GoAway(Line.c, Line.last, Line.code)
 TSClose   == Line.e = "p_close"  /\ SClose(Line.c)
 TDial     == Line.e = "dial"     /\ Dial(Line.c)
 THdr      == Line.e = "e_hdr"    /\ Hdr(Line.c, Line.s, Line.r, Line.es)
-TData     == Line.e = "e_data"   /\ Data(Line.c, Line.s, Line.es)
+TData     == Line.e = "e_data"   /\ Data(Line.c, Line.s, Line.n, Line.es, Line.b0, Line.b1)
 TRst      == Line.e = "e_rst"    /\ Rst(Line.c, Line.s, Line.code)
 TRet      == Line.e = "ret"      /\ Ret(Line.r, Line.kind)
 TCClosed  == Line.e = "e_closed" /\ CClosed(Line.c)
